@@ -31,6 +31,19 @@ func c14CheckCase(t vh.Fataler, rec *vh.Rec, env *c14Env, c c14Case, extra ...st
 	for _, q := range c.Queries {
 		c14Eval(t, rec, b, c, dg, q, extra...)
 	}
+	// generations the loaded selector holds although the file does not declare them: probe them
+	// (a generation that is not configured must be refused)
+	for _, g := range b.extraGens {
+		for _, lv := range []uint{2, 1} {
+			for _, fam := range []string{c14FamV4, c14FamV6} {
+				seed := vh.Hex{0x5e, 0xed, 0x00, 0x01, 0x02, 0x03, 0x04, 0x05, 0x06, 0x07, 0x08, 0x09, 0x0a, 0x0b, 0x0c, 0x0d}
+				if len(c.Queries) > 0 && len(c.Queries[0].Seed) > 0 {
+					seed = c.Queries[0].Seed
+				}
+				c14Eval(t, rec, b, c, dg, c14Query{Entry: c14EntrySelect, Seed: seed, Gen: g, LibVer: lv, Fam: fam, Note: "probe of an undeclared generation held by the loaded selector"}, append(extra, "probe-undeclared-generation")...)
+			}
+		}
+	}
 }
 
 func c14Replay(t *testing.T, rec *vh.Rec, env *c14Env) bool {
@@ -109,6 +122,8 @@ func c14Shapes() []c14Shape {
 		{"mapped /96 (all of IPv4) and /104", g(c14Group{Weight: 1, Rand: -1, Subnets: []string{"::ffff:0.0.0.0/96", "::ffff:10.0.0.0/104"}}), true},
 		{"mapped text /90 (plain IPv6 prefix covering the mapped range)", g(c14Group{Weight: 1, Rand: -1, Subnets: []string{"::ffff:198.51.100.0/90", "192.0.2.0/24"}}), true},
 		{"mapped group beside an IPv6 group", g(c14Group{Weight: 1, Rand: 1, Subnets: []string{"::ffff:198.51.100.0/120"}}, c14Group{Weight: 1, Rand: 0, Subnets: []string{"2001:db8::/64", "192.0.2.0/24"}}), true},
+		{"generation 0 declared beside generation 1", []c14GenCfg{{Gen: 0, Groups: []c14Group{{Weight: 1, Rand: 1, Subnets: []string{"198.51.100.0/24", "2001:db8:1::/64"}}}}, {Gen: 1, Groups: []c14Group{{Weight: 1, Rand: 0, Subnets: both}}}}, true},
+		{"generations 0 and 5 declared, generation 1 not", []c14GenCfg{{Gen: 5, Groups: []c14Group{{Weight: 1, Rand: 0, Subnets: both}}}, {Gen: 0, Groups: []c14Group{{Weight: 1, Rand: 1, Subnets: []string{"198.51.100.0/24", "2001:db8:1::/64"}}}}}, true},
 		{"two /32 (legacy v0 id space of size 0)", g(c14Group{Weight: 1, Rand: -1, Subnets: []string{"192.0.2.1/32", "192.0.2.2/32", "2001:db8::1/128", "2001:db8::2/128"}}), true},
 	}
 }
@@ -127,7 +142,7 @@ func c14FixedSeeds() [][]byte {
 }
 
 func TestVerif_C14_degenerate(t *testing.T) {
-	rec := vh.NewRec("C14", "degenerate", "exhaustive product of 30 degenerate configuration shapes (IPv4-mapped IPv6 networks alone / beside IPv4 / beside tiny or ordinary IPv6, no/removed generation, absent/empty group list, zero/absent weights, absent/empty subnet lists, single-family, one-address, all-zero, /0, leading-zero, top-of-space, unparsable, 2^32-1 weights) x {object built directly, loaded from TOML} x 7 seed shapes x library versions 0-4 x {v4,v6} for Select and x {v4,v6,any} for SelectPhantom weighted/unweighted; "+c14Rule)
+	rec := vh.NewRec("C14", "degenerate", "exhaustive product of 32 degenerate configuration shapes (generation 0 declared beside others, IPv4-mapped IPv6 networks alone / beside IPv4 / beside tiny or ordinary IPv6, no/removed generation, absent/empty group list, zero/absent weights, absent/empty subnet lists, single-family, one-address, all-zero, /0, leading-zero, top-of-space, unparsable, 2^32-1 weights) x {object built directly, loaded from TOML} x 7 seed shapes x library versions 0-4 x {v4,v6} for Select and x {v4,v6,any} for SelectPhantom weighted/unweighted; "+c14Rule)
 	defer rec.Flush()
 	rec.Require("zero-total-weight", "result:error", "result:address", "via-toml", "legacy-libver", "leading-zero-net", "one-address-net", "mapped-cidr-present")
 	env := &c14Env{dir: t.TempDir()}
@@ -150,6 +165,11 @@ func TestVerif_C14_degenerate(t *testing.T) {
 				for lv := uint(0); lv <= 4; lv++ {
 					for _, fam := range []string{c14FamV4, c14FamV6} {
 						c.Queries = append(c.Queries, c14Query{Entry: c14EntrySelect, Seed: seed, Gen: 1, LibVer: lv, Fam: fam, Note: sh.name})
+						if len(sh.gens) == 2 && (sh.gens[0].Gen == 0 || sh.gens[1].Gen == 0) {
+							for _, g := range []uint{0, 5, 6, 2} {
+								c.Queries = append(c.Queries, c14Query{Entry: c14EntrySelect, Seed: seed, Gen: g, LibVer: lv, Fam: fam, Note: sh.name})
+							}
+						}
 					}
 				}
 				for _, e := range []string{c14EntryClientW, c14EntryClientU} {
